@@ -1,0 +1,155 @@
+//! Verification hooks (feature `verif_hooks`, off by default).
+//!
+//! Nothing in here changes the behaviour of adlt unless a pause schedule or a
+//! channel capacity is explicitly configured by a verification harness.
+//!
+//! - [hit]/[snapshot]: census counters for interesting code paths (evidence of reach only)
+//! - [pause]: injects a delay at a hook point according to a schedule
+//! - [chan_cap]: lets a harness shrink the bounded channels of the binaries
+use std::sync::atomic::{AtomicU64, Ordering};
+
+/// hook points. Keep in sync with [POINT_NAMES].
+#[derive(Clone, Copy, Debug, PartialEq, Eq)]
+#[repr(usize)]
+pub enum Point {
+    /// lifecycle detection: outflow after a merge emptied the set of buffered lcs
+    LcOutMergeFlush = 0,
+    /// lifecycle detection: outflow of a msg of the just confirmed lc
+    LcOutConfirmOwn,
+    /// lifecycle detection: outflow of a msg of another non buffered lc within the confirm loop
+    LcOutConfirmOther,
+    /// lifecycle detection: direct outflow (no buffered lcs)
+    LcOutDirect,
+    /// lifecycle detection: outflow of the remaining buffered msgs at end of stream
+    LcOutFinalFlush,
+    /// lifecycle detection: merge into a still buffered prev lc
+    LcMergeBuffered,
+    /// lifecycle detection: merge into a non buffered prev lc (all msgs still buffered)
+    LcMergeUnbuffered,
+    /// lifecycle detection: merge needed but not possible (msgs already sent)
+    LcMergeSkipped,
+    /// lifecycle detection: a buffered lc got confirmed
+    LcConfirm,
+    /// lifecycle detection: between lcs_w.update and lcs_w.refresh on confirm
+    LcBetweenUpdateRefresh,
+    /// lifecycle detection: regular/forced refresh executed
+    LcRegularRefresh,
+    /// lifecycle detection: final publication of the still buffered lcs
+    LcFinalPublish,
+    /// sync_sender_send_delay_if_full: channel was full
+    SendFull,
+    /// sync_sender_send_delay_if_full: before the try_send
+    BeforeSend,
+    /// binaries: parser loop, per message
+    ParserMsg,
+}
+
+pub const NR_POINTS: usize = 15;
+pub const POINT_NAMES: [&str; NR_POINTS] = [
+    "LcOutMergeFlush",
+    "LcOutConfirmOwn",
+    "LcOutConfirmOther",
+    "LcOutDirect",
+    "LcOutFinalFlush",
+    "LcMergeBuffered",
+    "LcMergeUnbuffered",
+    "LcMergeSkipped",
+    "LcConfirm",
+    "LcBetweenUpdateRefresh",
+    "LcRegularRefresh",
+    "LcFinalPublish",
+    "SendFull",
+    "BeforeSend",
+    "ParserMsg",
+];
+
+#[allow(clippy::declare_interior_mutable_const)]
+const ZERO: AtomicU64 = AtomicU64::new(0);
+static HITS: [AtomicU64; NR_POINTS] = [ZERO; NR_POINTS];
+/// pause schedule per point: every n-th hit (0 = never)...
+static PAUSE_EVERY: [AtomicU64; NR_POINTS] = [ZERO; NR_POINTS];
+/// ... sleep that many micro seconds (0 = yield only)
+static PAUSE_US: [AtomicU64; NR_POINTS] = [ZERO; NR_POINTS];
+static PAUSE_CNT: [AtomicU64; NR_POINTS] = [ZERO; NR_POINTS];
+static ENV_READ: std::sync::Once = std::sync::Once::new();
+
+/// count a hit of that point
+#[inline]
+pub fn hit(p: Point) {
+    HITS[p as usize].fetch_add(1, Ordering::Relaxed);
+}
+
+/// return the current hit counters
+pub fn snapshot() -> [u64; NR_POINTS] {
+    let mut r = [0u64; NR_POINTS];
+    for (i, h) in HITS.iter().enumerate() {
+        r[i] = h.load(Ordering::Relaxed);
+    }
+    r
+}
+
+/// reset all hit counters
+pub fn reset() {
+    for h in HITS.iter() {
+        h.store(0, Ordering::Relaxed);
+    }
+}
+
+/// configure a pause: at every `every`-th call of [pause] for that point sleep `micros` us
+/// (`micros`==0 -> yield). `every`==0 disables.
+pub fn set_pause(p: Point, every: u64, micros: u64) {
+    PAUSE_US[p as usize].store(micros, Ordering::Relaxed);
+    PAUSE_EVERY[p as usize].store(every, Ordering::Relaxed);
+}
+
+/// disable all pauses
+pub fn clear_pauses() {
+    for e in PAUSE_EVERY.iter() {
+        e.store(0, Ordering::Relaxed);
+    }
+}
+
+fn read_env() {
+    // ADLT_VERIF_PAUSE=Name:every:micros[,Name:every:micros...]
+    if let Ok(s) = std::env::var("ADLT_VERIF_PAUSE") {
+        for part in s.split(',') {
+            let f: Vec<&str> = part.split(':').collect();
+            if f.len() == 3 {
+                if let (Some(idx), Ok(every), Ok(us)) = (
+                    POINT_NAMES.iter().position(|n| *n == f[0]),
+                    f[1].parse::<u64>(),
+                    f[2].parse::<u64>(),
+                ) {
+                    PAUSE_US[idx].store(us, Ordering::Relaxed);
+                    PAUSE_EVERY[idx].store(every, Ordering::Relaxed);
+                }
+            }
+        }
+    }
+}
+
+/// pause (sleep or yield) at that point if a schedule is configured
+#[inline]
+pub fn pause(p: Point) {
+    ENV_READ.call_once(read_env);
+    let every = PAUSE_EVERY[p as usize].load(Ordering::Relaxed);
+    if every > 0 {
+        let cnt = PAUSE_CNT[p as usize].fetch_add(1, Ordering::Relaxed) + 1;
+        if cnt % every == 0 {
+            let us = PAUSE_US[p as usize].load(Ordering::Relaxed);
+            if us == 0 {
+                std::thread::yield_now();
+            } else {
+                std::thread::sleep(std::time::Duration::from_micros(us));
+            }
+        }
+    }
+}
+
+/// channel capacity to use: the default one unless env ADLT_VERIF_CHAN_CAP is set
+pub fn chan_cap(default: usize) -> usize {
+    match std::env::var("ADLT_VERIF_CHAN_CAP") {
+        Ok(s) => s.parse::<usize>().unwrap_or(default),
+        Err(_) => default,
+    }
+}
